@@ -169,6 +169,9 @@ impl OutputFormat for TundraDraw {
             let mut cmd = data[o];
             o += 1;
             if cmd == TUNDRA_POSITION {
+                if o + 8 > data.len() {
+                    return Err(LoadingError::FileTooShort.into());
+                }
                 pos.y = to_u32(&data[o..]);
                 if pos.y < 0 || pos.y >= (u16::MAX) as i32 {
                     return Err(io::Error::new(
@@ -195,6 +198,16 @@ impl OutputFormat for TundraDraw {
             }
 
             if cmd > 1 && cmd <= 6 {
+                let mut needed = 1;
+                if cmd & TUNDRA_COLOR_FOREGROUND != 0 {
+                    needed += 4;
+                }
+                if cmd & TUNDRA_COLOR_BACKGROUND != 0 {
+                    needed += 4;
+                }
+                if o + needed > data.len() {
+                    return Err(LoadingError::FileTooShort.into());
+                }
                 let ch = data[o];
                 o += 1;
                 if cmd & TUNDRA_COLOR_FOREGROUND != 0 {
